@@ -522,21 +522,22 @@ func (mr *modelRun) runDAG(p *Plan, path, statePath string, in M) (M, string) {
 		}
 		if failed != "" {
 			// a failed run stops scheduling; which later nodes still ran (and possibly failed
-			// too) depends on the batch they were in: evaluate them only to learn the
-			// alternative failures, on a scratch copy of the bookkeeping
-			if n := p.node(k); n != nil && (n.Kind == KSub || n.FailAt >= 0) {
-				saveExecs, saveSub := mr.res.Execs, mr.res.SubInputs
-				saveN := map[string]int{}
-				for a, b := range mr.res.StateN {
-					saveN[a] = b
-				}
-				_, err := mr.execNode(p, path, statePath, n, input)
-				mr.res.Execs, mr.res.SubInputs, mr.res.StateN = saveExecs, saveSub, saveN
-				if err != ErrNone {
-					mr.res.AltErr = append(mr.res.AltErr, err)
-				}
+			// too) depends on timing: the model goes on as if they all ran, only to learn the
+			// alternative failures (executions of failed runs are not compared)
+			o, err := mr.execNode(p, path, statePath, p.node(k), input)
+			if err != ErrNone {
+				mr.res.AltErr = append(mr.res.AltErr, err)
+				state[k] = skipped
+				continue
 			}
-			state[k] = skipped
+			if p.Mode != ModeWorkflow {
+				// batch execution: nodes of later steps never start once a step has failed
+				state[k] = skipped
+				continue
+			}
+			state[k] = ran
+			outv[k] = o
+			resolve(k)
 			continue
 		}
 		o, err := mr.execNode(p, path, statePath, p.node(k), input)
